@@ -98,10 +98,12 @@ impl MappingInfo {
         linux_gate_loc: Option<AuxvType>,
     ) -> Result<Vec<Self>> {
         let mut infos = Vec::<Self>::new();
-        // Whether the file behind each entry of `infos` shows as deleted in the map. A file and
-        // a deleted one of the same path (a library that was replaced and loaded again) are
-        // different files, their mappings must not be merged.
-        let mut deleted = Vec::<bool>::new();
+        // The file behind each entry of `infos`: whether it shows as deleted in the map, its device
+        // and its inode. A file and a deleted one of the same path (a library that was replaced and
+        // loaded again) are different files, and so are two files that show the same name (two
+        // memfds of one name, two unlinked files that had the same path): their mappings must not
+        // be merged.
+        let mut files = Vec::<(bool, (i32, i32), u64)>::new();
 
         for mm in memory_maps {
             let start_address: usize = mm.address.0.try_into()?;
@@ -109,6 +111,7 @@ impl MappingInfo {
             let mut offset: usize = mm.offset.try_into()?;
 
             let is_deleted = matches!(&mm.pathname, MMapPath::Path(p) if p.as_os_str().as_bytes().ends_with(DELETED_SUFFIX));
+            let file = (is_deleted, mm.dev, mm.inode);
             let mut pathname: Option<OsString> = match mm.pathname {
                 MMapPath::Path(p) => Some(sanitize_path(p.into())),
                 MMapPath::Heap => Some("[heap]".into()),
@@ -136,7 +139,7 @@ impl MappingInfo {
                 if (start_address == prev_module.end_address())
                     && pathname.is_some()
                     && (pathname == prev_module.name)
-                    && deleted.last() == Some(&is_deleted)
+                    && files.last() == Some(&file)
                 {
                     // Merge adjacent mappings into one module, assuming they're a single
                     // library mapped by the dynamic linker.
@@ -177,14 +180,14 @@ impl MappingInfo {
                     let prev_prev_module = previous_modules.first_mut().unwrap();
 
                     if pathname == prev_prev_module.name
-                        && deleted.len() >= 2
-                        && deleted[deleted.len() - 2] == is_deleted
+                        && files.len() >= 2
+                        && files[files.len() - 2] == file
                     {
                         prev_prev_module.system_mapping_info.end_address = end_address;
                         prev_prev_module.size = end_address - prev_prev_module.start_address;
                         prev_prev_module.permissions |= mm.perms;
                         infos.pop();
-                        deleted.pop();
+                        files.pop();
                         continue;
                     }
                 }
@@ -201,7 +204,7 @@ impl MappingInfo {
                 permissions: mm.perms,
                 name: pathname,
             });
-            deleted.push(is_deleted);
+            files.push(file);
         }
         Ok(infos)
     }
